@@ -57,6 +57,10 @@ SNIPPETS = [
     "np.roll(np.array([1, 2, 3, 4]), 1)", "np.roll(np.array([True, False, False]), -1)", "np.roll(np.array([]), 2)", "np.roll(np.arange(5), 7)",
     "list(pd.DataFrame({'b': [1], 'a': [2], 'c': [3]}).columns.intersection(['c', 'zz', 'b']))", "list(pd.DataFrame({'b': [1], 'a': [2], 'c': [3]}).columns.difference(['a']))",
     "pd.DataFrame({'b': [1], 'a': [2]}).columns.isin(['a', 'q'])",
+    "_v1()", "_v2()", "_v3()",
+    "np.isin(np.array([1, 5, 2]), [2, 1])", "np.isin(np.array([1.0, 2.0]), np.array([]))", "np.isin([3, 4], [4], invert=True)", "np.take(np.array([5, 6, 7]), [2, 0])",
+    "np.take(np.array([5, 6, 7]), 1)", "np.repeat(np.array([1, 2]), 3)", "np.repeat(np.array([]), 2)", "np.ediff1d(np.array([1, 4, 9]))",
+    "np.argsort(np.array([3, 1, 2]))", "np.argsort(np.array([2.0, 1.0, 2.0, 1.0]))", "np.argsort(np.array([]))", "np.argsort(np.array([True, False, True]))",
     "_n1()", "_n2()", "_n3()", "_n4()", "_n5()", "_n6()", "_n7()", "_n8()", "_n9()",
     "np.ceil(3 / 2)", "int(np.ceil(0 / 2))", "np.array([2, 9, 4])[0::2]", "np.array([5, 7, 9])[np.array([True, False, True])] - 2",
     # --- pandas
@@ -110,6 +114,17 @@ def _p17():
     df = pd.concat([pd.DataFrame({'a': [1.0, 2.0]}), pd.DataFrame({'a': [3.0, 4.0]})], axis=0)
     m = np.array([True, False, False, True])
     return [df.loc[df.index[m]]['a'].tolist(), df[m]['a'].tolist(), list(df.index[m]), df.loc[[1]]['a'].tolist()]
+def _v1():
+    s = pd.Series([1.0, 4.0, 2.0, 8.0]); i = pd.Series([3, 1, 2])
+    return [s.shift(1).tolist(), s.shift(-1).tolist(), s.shift(0).tolist(), s.shift(5).tolist(), i.shift(1).tolist(), i.shift(-2).tolist(), i.shift(1, fill_value=0).tolist(),
+            s.diff().tolist(), i.diff().tolist(), s.cumsum().tolist(), i.cumsum().tolist(), pd.Series([True, False, True]).cumsum().tolist(), pd.Series([], dtype=float).shift(1).tolist()]
+def _v2():
+    s = pd.Series([1.0, -4.0, float('nan'), 8.0]); i = pd.Series([3, 1, 2])
+    return [s.clip(lower=0).tolist(), s.clip(upper=2).tolist(), s.clip(0, 2).tolist(), i.clip(2, 2).tolist(), i.isin([1, 3]).tolist(), s.isin([8.0]).tolist(), i.isin([]).tolist(),
+            i.between(1, 2).tolist(), i.between(1, 3, inclusive='neither').tolist(), s.between(-4, 1).tolist()]
+def _v3():
+    s = pd.Series([1.0, -4.0, float('nan'), 8.0]); c = s > 0
+    return [s.where(c).tolist(), s.where(c, 0.0).tolist(), s.mask(c, -1.0).tolist(), s.fillna(7.0).tolist(), s.where(c, s * 2).tolist()]
 def _n1():
     a = np.array([30000, -30000, 100], dtype=np.int16); b = np.array([-30000, 30000, 27], dtype=np.int16)
     r = a - b
